@@ -795,7 +795,12 @@ def evaluate_pass(env, case, p, las_path, v):
                 ref = refs[i]
                 multi = p.cols[i].shape[1] > 1 and red in ('mean', 'median')
                 t = (0.5 if multi else 0.0) if p.is_int[i] else tol        # integers print with d (exact) or .0f
-                slack = np.abs(ref) * (2.0 ** -50) + (np.abs(ref) * 2.0 ** -21 if (p.f32[i] and multi) else 0.0)
+                # numpy reduces in the channel's own precision: the rounding error of a mean/median is relative to the largest
+                # ELEMENT of the frame (cancellation), not to the reduced value
+                amax = np.abs(p.cols[i].astype(np.float64)).max(axis=1) if multi else np.abs(ref)
+                amax = np.where(np.isfinite(amax), amax, 0.0)
+                nel = p.cols[i].shape[1]
+                slack = amax * (2.0 ** -50) * max(nel, 1) + (amax * 2.0 ** -22 * max(nel, 1) if (p.f32[i] and multi) else 0.0)
                 with np.errstate(invalid='ignore'):
                     ok &= (np.abs(ref - data[k][r]) <= t * (1 + 1e-9) + slack) | (np.isnan(ref) & np.isnan(data[k][r]))
             oks.append(ok)
